@@ -330,7 +330,28 @@ func xpkgSets() []*Set {
 	ss := simpleSet("xpkg-srcrel", sf)
 	ss.Parameter = "paths=source_relative,features=fast+protoc"
 	ss.ExpectFiles = []string{"zzgen/xs/s.pulsar.go"}
-	return []*Set{all, ms, ss}
+	// two Go packages with the same package name under different import paths
+	vb := &fileB{f: &descriptorpb.FileDescriptorProto{
+		Name: proto.String("zzgen/xbase/v1/coin.proto"), Package: proto.String("vf.xpkg.base.v1"), Syntax: proto.String("proto3"),
+		Options: &descriptorpb.FileOptions{GoPackage: proto.String(goPkgPath("xbase/v1") + ";v1")},
+	}}
+	coin := newMsg(".vf.xpkg.base.v1", "Coin")
+	coin.add(field("denom", 1, kindSpec{t: tString}))
+	coin.add(field("amount", 2, kindSpec{t: tUint64}))
+	vb.msg(coin)
+	vb.enum(enum("Unit", "UNIT_UNSPECIFIED", 0, "UNIT_MICRO", 6))
+	vk := &fileB{f: &descriptorpb.FileDescriptorProto{
+		Name: proto.String("zzgen/xbank/v1/bank.proto"), Package: proto.String("vf.xpkg.bank.v1"), Syntax: proto.String("proto3"),
+		Options:    &descriptorpb.FileOptions{GoPackage: proto.String(goPkgPath("xbank/v1") + ";v1")},
+		Dependency: []string{"zzgen/xbase/v1/coin.proto"},
+	}}
+	send := newMsg(".vf.xpkg.bank.v1", "Send")
+	send.add(repeated(field("coins", 1, kindSpec{t: tMessage, name: ".vf.xpkg.base.v1.Coin"})))
+	send.add(field("unit", 2, kindSpec{t: tEnum, name: ".vf.xpkg.base.v1.Unit"}))
+	send.addMap("by_denom", 3, tString, kindSpec{t: tMessage, name: ".vf.xpkg.base.v1.Coin"})
+	vk.msg(send)
+	same := simpleSet("xpkg-same-go-name", vb, vk)
+	return []*Set{all, ms, ss, same}
 }
 
 // ---------------------------------------------------------------------------
@@ -476,6 +497,26 @@ func nameSets() []*Set {
 			f.msg(m)
 		})
 	}
+	// a field-less "namespace" message whose nested messages use reserved names
+	mk("names-nested-in-empty", "nnest", func(f *fileB, pkg string) {
+		ns := newMsg("."+pkg, "Events")
+		tr := newMsg(ns.full, "Transfer")
+		tr.add(field("type", 1, kindSpec{t: tString}))
+		tr.add(field("get", 2, kindSpec{t: tInt32}))
+		oi := tr.oneof("range")
+		tr.add(inOneof(field("has", 3, kindSpec{t: tString}), oi))
+		tr.add(inOneof(field("clear", 4, kindSpec{t: tSint32}), oi))
+		deep := newMsg(tr.full, "Inner")
+		deep.add(field("descriptor", 1, kindSpec{t: tBytes}))
+		deep.add(field("new", 2, kindSpec{t: tMessage, name: tr.full}))
+		tr.nest(deep)
+		ns.nest(tr)
+		f.msg(ns)
+		user := newMsg("."+pkg, "User")
+		user.add(field("t", 1, kindSpec{t: tMessage, name: tr.full}))
+		user.add(repeated(field("inners", 2, kindSpec{t: tMessage, name: deep.full})))
+		f.msg(user)
+	})
 	// message / enum names that need Go-name mangling
 	mk("names-mangle", "nmangle", func(f *fileB, pkg string) {
 		f.enum(enum("lower_enum", "lower_zero", 0, "lower_one", 1))
